@@ -55,6 +55,22 @@ Theorem C14_size_eq_1 : forall bits size, matches (EqualTo 1) (unit_size bits si
 Proof. exact size_eq_1. Qed.
 Print Assumptions C14_size_eq_1.
 
+(* the same for every N: what -size N, -size +N and -size -N say about the size in bytes, for any unit *)
+Theorem C14_size_more : forall bits n size,
+  matches (MoreThan n) (unit_size bits size) = true <-> n * 2 ^ bits < size.
+Proof. exact size_more_n. Qed.
+Theorem C14_size_less : forall bits n size, 0 < n ->
+  (matches (LessThan n) (unit_size bits size) = true <-> size <= (n - 1) * 2 ^ bits).
+Proof. exact size_less_n. Qed.
+Theorem C14_size_eq : forall bits n size, 0 < n ->
+  (matches (EqualTo n) (unit_size bits size) = true <-> (n - 1) * 2 ^ bits < size <= n * 2 ^ bits).
+Proof. exact size_eq_n. Qed.
+Theorem C14_size_eq_0 : forall bits size, matches (EqualTo 0) (unit_size bits size) = true <-> size = 0.
+Proof. exact size_eq_0. Qed.
+Theorem C14_size_less_0 : forall bits size, matches (LessThan 0) (unit_size bits size) = false.
+Proof. exact size_less_0. Qed.
+Print Assumptions C14_size_eq.
+
 Example C14_witness :
   size_test [43; 50; 107]%nat 2049 = Some true /\ size_test [43; 50; 107]%nat 2048 = Some false /\
   size_test [45; 49; 77]%nat 0 = Some true /\ size_test [49; 48; 120]%nat 5 = None /\
